@@ -58,6 +58,95 @@ def describe(unit, v):
     raise ValueError(kind)
 
 
+def _sweep(ctx, unit, ks, call, label, replay):
+    """monotone + bounds over ascending marks ks for one way of asking; returns the number of violations"""
+    lo, hi = JC.BOUNDS[unit.sys]
+    prev = None; bad = 0
+    for k in ks:
+        arg = k / 100.0
+        r = JC.canon(lambda: call(arg))
+        ctx.count(1, 'calls_variants')
+        if not r.startswith('p '):
+            prev = None; continue
+        p = int(r[2:])
+        if p < lo or (hi is not None and p > hi):
+            bad += 1
+            ctx.fail(JC.FN[unit.sys], list(unit.key) + [arg, label], 'an int in %s..%s' % (lo, '' if hi is None else hi), '%d' % p, note='bounds: ' + label, replay_py='result = ' + replay(arg))
+        if prev is not None:
+            pk, pp = prev
+            if (pp < p) if unit.timed else (p < pp):
+                bad += 1
+                worse, better = ((k, p), (pk, pp)) if unit.timed else ((pk, pp), (k, p))
+                if bad <= 3:
+                    ctx.fail(JC.FN[unit.sys], list(unit.key) + [worse[0] / 100.0, better[0] / 100.0, label],
+                             'points(better mark %s) >= points(worse mark %s) = %d' % (JC.s2(better[0]), JC.s2(worse[0]), worse[1]), '%d' % better[1],
+                             note='mono: ' + label, replay_py='result = (%s, %s)' % (replay(worse[0] / 100.0), replay(better[0] / 100.0)))
+        prev = (k, p)
+    return bad
+
+
+def spelling_pass(ctx, L, units):
+    """the same tables asked for under lower-case event codes / genders (accepted spellings of the same event)"""
+    A = L['athlib']; nv = 0; seen = set()
+    for u in units:
+        if u.sys == 'ty': g, ev, age = u.key; ident = (u.sys, g, ev)
+        elif u.sys == 'ath': g, ev, age = u.key; ident = (u.sys, g, ev)
+        else: ident = (u.sys,) + tuple(u.key)
+        if ident in seen: continue
+        seen.add(ident)
+        ks = sorted(set([k for m in u.marks for k in (m - 1, m, m + 1) if u.lo <= k <= u.hi] + list(range(u.lo, u.hi + 1, max(1, (u.hi - u.lo) // 40)))))
+        if u.sys == 'ty':
+            call = lambda a: A.tyrving_score(g.lower(), age, ev.lower(), a); rp = lambda a: 'athlib.tyrving_score(%r, %r, %r, %r)' % (g.lower(), age, ev.lower(), a)
+            if (g.lower(), ev.lower()) == (g, ev): continue
+        elif u.sys == 'ath':
+            call = lambda a: A.athlon_score(g.lower(), ev.lower(), a, age=age); rp = lambda a: 'athlib.athlon_score(%r, %r, %r, age=%r)' % (g.lower(), ev.lower(), a, age)
+        elif u.sys == 'qk':
+            ct, ev = u.key
+            if ev.lower() == ev: continue
+            call = lambda a: A.qkids_score(ct, ev.lower(), a); rp = lambda a: 'athlib.qkids_score(%r, %r, %r)' % (ct, ev.lower(), a)
+        elif u.sys == 'sh':
+            (code,) = u.key
+            if code.lower() == code: continue
+            call = lambda a: A.sportshall_score(code.lower(), a); rp = lambda a: 'athlib.sportshall_score(%r, %r)' % (code.lower(), a)
+        elif u.sys == 'bg':
+            ag, g, ev = u.key
+            if (g.lower(), ev.lower()) == (g, ev): continue
+            call = lambda a: A.bulgarian_score(ag, g, ev.lower(), a); rp = lambda a: 'athlib.bulgarian_score(%r, %r, %r, %r)' % (ag, g, ev.lower(), a)
+        elif u.sys == 'hu':
+            g, io, ev = u.key
+            if ev.lower() == ev: continue
+            call = lambda a: A.hungarian_score(g, io, ev.lower(), a); rp = lambda a: 'athlib.hungarian_score(%r, %r, %r, %r)' % (g, io, ev.lower(), a)
+        else:
+            continue
+        nv += _sweep(ctx, u, ks, call, 'lower-case spelling of the event', rp)
+    ctx.stats['tables_swept_in_lower_case'] = len(seen)
+    return nv
+
+
+def history_pass(ctx, L):
+    """the same table asked again after calls with other options: answers for a fixed event, gender and age must not depend
+    on what was scored before (English Schools option of the boys' 800 m)"""
+    A = L['athlib']; nv = 0
+    u = JC.Unit('ath', ('M', '800', None), 9000, 26000, [], True)
+    ks = list(range(u.lo, u.hi, 37))
+    plain = lambda a: A.athlon_score('M', '800', a); esaa = lambda a: A.athlon_score('M', '800', a, esaa=True)
+    first = {k: JC.canon(lambda: plain(k / 100.0)) for k in ks}
+    firste = {k: JC.canon(lambda: esaa(k / 100.0)) for k in ks}
+    for k in ks:
+        for fn, want, label, rp in ((plain, first, 'plain call after esaa=True calls', 'athlib.athlon_score("M", "800", %r)'),
+                                    (esaa, firste, 'esaa=True call after plain calls', 'athlib.athlon_score("M", "800", %r, esaa=True)')):
+            r = JC.canon(lambda: fn(k / 100.0)); ctx.count(1, 'calls_variants')
+            if r != want[k]:
+                nv += 1
+                if nv <= 4:
+                    ctx.fail('athlib.athlon_score', ['M', '800', k / 100.0, label], want[k] + ' (the answer of the first call)', r,
+                             note='history: the points for a fixed event, gender and mark changed after calls with the other option',
+                             replay_py='a = ' + (rp % (k / 100.0)) + '\nfor x in (100.0, 120.0, 159.15): athlib.athlon_score("M", "800", x, esaa=True); athlib.athlon_score("M", "800", x)\nresult = (a, ' + (rp % (k / 100.0)) + ')')
+    nv += _sweep(ctx, u, ks, plain, 'plain calls interleaved with esaa=True calls', lambda a: 'athlib.athlon_score("M", "800", %r)' % a)
+    nv += _sweep(ctx, u, ks, esaa, 'esaa=True calls', lambda a: 'athlib.athlon_score("M", "800", %r, esaa=True)' % a)
+    return nv
+
+
 def run(ctx):
     ctx.rule = ('every table of every scoring system (Tyrving x age, QuadKids, Sportshall, Bulgarian, Hungarian, combined events with no age and age 52) '
                 'x consecutive marks of the 0.01 grid (C11 grids; Hungarian: times 0..zero point, fields 0..1.5 x record; combined events 0..2 s / m past the zero point), '
@@ -106,6 +195,8 @@ def run(ctx):
             fn, args, exp, got, note, rp = describe(unit, v)
             if res['nviol'] > 1: note += '; %d violations in this table' % res['nviol']
             ctx.fail(fn, args, exp, got, note=note, replay_py=rp)
+    nv += spelling_pass(ctx, L, units)
+    nv += history_pass(ctx, L)
     ctx.stats['tables'] = len(units); ctx.stats['violations_seen'] = nv
     ctx.distinct = set(range(strict))
     # Hungarian: the repaired model against the code (evidence only: C05 is decided by the sweep above), and the tail
